@@ -95,7 +95,7 @@ fn gen_op(r: &mut Rng, cap: usize, done: usize, steps: usize, drain_at_end: bool
     if w[1] > 0 && r.chance(1, 12) {
         return Some(Op::kab(O_BATCH_METHOD, r.range(1, 5), r.range(0, cap as i64 + 1)));
     }
-    if r.chance(1, 600) {
+    if r.chance(1, 5000) {
         return Some(Op::ka(O_FFWD, *r.pick(&[1_000i64, 32_768, 65_537, 70_000])));
     }
     Some(match r.weighted(w) as u8 {
@@ -381,9 +381,9 @@ impl Scenario for BufferedScenario {
     }
     fn runs(&self, tier: &str) -> u64 {
         if tier == "quick" {
-            1_200_000
+            800_000
         } else {
-            50_000_000
+            20_000_000
         }
     }
     fn run(&self, src: &mut Source, obs: &mut Observer) -> Result<(), Violation> {
